@@ -13,9 +13,12 @@ every capture result, export_text(), final shape / hook depth / started flag.
 
 Direct evaluation (3d) on real rich, with oracles independent of the model: every print reaches the file in
 exactly one write call, contiguously, once; captures contain exactly their own block's output; the record has
-the order of the file; no deadlock, no exception, every write happens under the console lock; the file
-replayed on the terminal oracle (harness/term.py) shows the printed lines (file order) followed by the frame
-of the last display write.
+the order of the file, and what the clearing exports returned (export_text / export_html raced with the prints)
+plus the final record is exactly the file; start() / stop() raced by several threads take effect once (hook
+stack depth <= 1, cursor hidden once, sys.stdout / sys.stderr wrapped once); no deadlock, no exception, every
+write happens under the console lock; the file replayed on the terminal oracle (harness/term.py) shows the
+printed lines (file order) followed by the frame of the last display write (outside constant-height sessions
+this fails on real rich: five recorded known findings, printed as KNOWN-FINDING, see MANIFEST note).
 """
 import multiprocessing
 import os
@@ -547,7 +550,8 @@ def run(ctx):
         "the model's atomic actions are the statement sequences between two shared accesses; thread-local statements commute with "
         "every action of another thread (ConsoleThreadLocals is threading.local)",
         "what a print renders to (its lines) is a parameter of the model, measured on a console without a display",
-        "sys.stdout / sys.stderr redirection is switched off; auto_refresh=False (the refresh thread is one more thread calling refresh())",
+        "redirect_stdout / redirect_stderr are on, over stand-in streams to which nothing is ever written (the model has no pending proxy "
+        "text: its flushProxies action prints nothing); auto_refresh=False (the refresh thread is one more thread calling refresh())",
     ]
     with multiprocessing.get_context("fork").Pool(NPROC) as pool:
         # phase A: every schedule with at most 1 preemption, complete; phase B: `bound` preemptions, capped per scenario
@@ -582,7 +586,8 @@ def run(ctx):
         "on the Lean model (trace inclusion + equal observables).  Exhaustive: every schedule with <= 1 preemption (complete), then <= %d "
         "preemptions (depth-first below every first-level node, capped at about %d runs per scenario; the evidence counts the subtrees cut "
         "by the cap) at sync granularity, of %d fixed 2-3 thread scenarios; beyond: seeded random scenarios (2-4 threads, programs <= 3 "
-        "ops over print/log/capture/update/refresh/advance/start/stop) under random-walk and PCT schedulers, and line-granularity runs; "
+        "ops over print/log/capture/export/update/refresh/advance/start/stop) under random-walk and PCT schedulers, line-granularity runs, "
+        "and line probes (one thread preempted at every executed line of live_render.py / live.py in turn); "
         "distinct = distinct (scenario, event trace) requests" % (bound, per_scn, len(fixed))
     )
 
@@ -596,7 +601,7 @@ def replay(ctx, case):
 
 MANIFEST = {
     "text": "Lean 4 theorems (Props/C11.lean) about a labelled transition system of rich/console.py + live.py + live_render.py + "
-    "progress.py (Model/Conc.lean: any number of threads, any programs over print/log/capture/update/refresh/start/stop/advance, a "
+    "progress.py (Model/Conc.lean: any number of threads, any programs over print/log/capture/export/update/refresh/start/stop/advance, a "
     "schedule is any list of thread ids, one step = one lock operation / one shared access / one file.write / one thread-local "
     "statement), all quantified over EVERY schedule: lock_order_acyclic (live < console < record) and no_deadlock; no internal "
     "error; write_mutual_exclusion; write_own_output_only (a write call = pieces of one thread, one operation); output_exactly_once "
@@ -605,12 +610,13 @@ MANIFEST = {
     "captures, and the write holding it is that thread's, one operation's); capture_isolated; record_order_eq_file_order; live_screen_under_schedules_partial (sessions "
     "whose frames all have one height: replaying the file in file order shows the printed lines then the frame of the last write, "
     "via C10's run_hooked); old_print_vs_taller_refresh_breaks_screen = machine-checked witness schedule for the general screen "
-    "statement (finding F22).  16 theorems in all.  Tie: real threads under a deterministic scheduler (harness/sched.py; yield points: every lock "
+    "statement (finding F22).  18 theorems in all: these, the invariants reach_inv / reach_out, and exports_partition_the_record, "
+    "export_reads_a_stable_record, record_eq_file_when_quiet, old_progress_stop_tail_races_start (see note).  Tie: real threads under a deterministic scheduler (harness/sched.py; yield points: every lock "
     "operation, file.write, access to _render_hooks / record buffer / _live_render._shape / renderable, and in line mode every source "
     "line of the five modules); every recorded trace of shared accesses is replayed on the model (trace inclusion) with equal "
     "observables (hook seen, erase height, shape, renderable, bytes of every write, captures, export_text); schedules: all with <= 1 "
-    "preemption, then <= 2 (quick: capped; thorough: complete) and <= 3 (thorough, capped) of 10 fixed scenarios, plus seeded random scenarios (2-4 threads) "
-    "under random-walk / PCT schedulers and line-granularity runs; the theorems' executable statements are evaluated on the real "
+    "preemption, then <= 2 (quick: capped; thorough: complete) and <= 3 (thorough, capped at 18000 runs per scenario) of 17 fixed scenarios, plus seeded random scenarios (2-4 threads; quick 960, thorough 38400) "
+    "under random-walk / PCT schedulers, line-granularity runs (quick 48, thorough 1440) and line probes; the theorems' executable statements are evaluated on the real "
     "output of every run (one write call per print, capture contents, export order, lock held at every write, no deadlock / "
     "exception, terminal replay of the file).",
     "note": "Exports: threads may call export_text / export_html (clear or not) at any time; model: read and clear inside one "
@@ -620,19 +626,20 @@ MANIFEST = {
     "loop and at the `del`).  Start/stop races: several threads may call start()/stop() of a Live or Progress at once (fixed + random scenarios); direct "
     "evaluation: hook stack depth <= 1 at all times, cursor hidden once, sys.stdout/stderr wrapped once, after stop depth 0 / cursor "
     "visible / a print draws no frame.  Line probes preempt a printing thread at every line of live_render.py / live.py.  Variant flag "
-    "stopTailUnlocked (1 = what /repo does, now as in rich 9.10.0 as found): Progress.stop erases / resets _shape after releasing its lock "
+    "STOP_TAIL_UNLOCKED = 1 (model: Cfg.stopTailUnlocked = true; 1 = what /repo does, as in rich 9.10.0 as found): Progress.stop erases / resets _shape after releasing its lock "
     "(witness old_progress_stop_tail_races_start); this is the recorded known finding progress-stop-tail-vs-start (KNOWN-FINDING on every "
     "run): pending_fixes/C11-progress-stop-tail-outside-lock.diff is a proposal that is only safe together with a done-check under the lock "
     "in _RefreshThread.run, so it was not applied.  The torn read of _shape in LiveRender (TypeError under a concurrent Progress.stop) IS "
     "repaired in /repo: fix 5e34007 (= pending_fixes/C11-progress-shape-torn-read.diff).  "
     "PARTIAL: (1) the screen theorem is proved for constant-height sessions only; the code in /repo (as rich 9.10.0 as found) breaks the general statement "
-    "(known findings live-print-vs-taller-refresh / -shorter-refresh / -stop / -start, one root cause: Console.print reads the display "
+    "(known findings live-print-vs-taller-refresh, live-print-vs-shorter-refresh, live-print-vs-stop, live-print-vs-start, printed as "
+    "KNOWN-FINDING like progress-stop-tail-vs-start; one root cause: Console.print reads the display "
     "state in process_renderables and writes later outside the live lock; no small repair).  (2) Preemption inside one source line and "
     "C-level reentrancy are not exhibited; the model's atomic actions are the statement sequences between two shared accesses, and the "
     "unlocked read-modify-write of LiveRender._shape (Progress) is one action in the model.  (3) What a print renders to is a "
-    "parameter (its lines); styles, sys.stdout redirection, Jupyter, the auto-refresh thread (modelled as one more thread calling "
-    "refresh) are outside the model; capture blocks are not combined with a running display; Progress start/stop run before/after "
-    "the concurrent phase.  (4) 'exactly one write per print' is stated through pieces (a print's rendering is one piece, in at most "
+    "parameter (its lines); styles, text pending in the sys.stdout / sys.stderr proxies, Jupyter, the auto-refresh thread (modelled as one more thread calling "
+    "refresh) are outside the model; capture blocks are not combined with a running display; in the constant-height scenarios start/stop run "
+    "before/after the concurrent phase.  (4) 'exactly one write per print' is stated through pieces (a print's rendering is one piece, in at most "
     "one write); the count of write calls per print is checked on real rich, not proved.  Trusted: Lean kernel, the scheduler and "
     "the event instrumentation (lock proxies, traced list / live_render subclass), harness/term.py.",
     "design_ref": "DESIGN.md section 7, C11",
